@@ -116,8 +116,44 @@ def run(ctx):
                                                                        theorems=['Xcp.C20.parblock_open_handles_bounded']),
                               f'measured peak {peak} exceeds the model bound {bound} ({nsp} sparse files, {workers} workers)', no_input=True)
         subprocess.run(['rm', '-rf', root + '/S', root + '/D'])
+        # ---- finalisation FAILS for every file (fchmod refused: a destination owned by someone else): whatever is logged or
+        # reported, the descriptors must still be closed — 1200 files under the limit
+        make_tree(root, 1200, rng)
+        for driver in ('parblock', 'parfile'):
+            subprocess.run(['rm', '-rf', root + '/D'])
+            plan = [f'fail fchmod * * {scen.ERRNO["EPERM"]}']
+            r = scen.run_xcp(root, ['-r', '--driver', driver, '--workers', '4', 'S', 'D'], plan=plan, timeout=600, nofile=1024, trace=True)
+            peak = r.final.get('peak_fds', -1)
+            bound = (2 * (CAP + 4 + 1) if driver == 'parblock' else 2 * 4) + CONST
+            ctx.count(f'finalise_fails.{driver}.exit.{r.cls}'); ctx.case(('finalise-fails', driver), True, sample=dict(files=1200, driver=driver, plan=plan, peak_descriptors=peak, model_bound=bound))
+            peaks[('finalise-fails', driver)] = peak
+            toomany = 'Too many open files' in r.stderr
+            if toomany or peak > bound:
+                ctx.violation(f'finalise-fails-{driver}.json', dict(files=1200, driver=driver, plan=plan, exit=r.cls, peak=peak, bound=bound, stderr=r.stderr[-300:]),
+                              f'C20: with every fchmod failing, {"the run hit the descriptor limit" if toomany else f"the peak {peak} exceeds the bound {bound}"} after copying under RLIMIT_NOFILE=1024 ({driver}): descriptors are not released when finalisation fails')
+        # ---- many DIRECTORIES with a non-default mode (0750, 2775): the walker must not keep anything open per directory
+        subprocess.run(['rm', '-rf', root + '/S', root + '/D'])
+        os.makedirs(root + '/S')
+        for i in range(700):
+            os.makedirs(f'{root}/S/g{i // 50}/d{i}', exist_ok=True); os.chmod(f'{root}/S/g{i // 50}/d{i}', [0o750, 0o2775, 0o700][i % 3])
+            open(f'{root}/S/g{i // 50}/d{i}/f', 'wb').write(b'x')
+        for driver in ('parblock', 'parfile'):
+            subprocess.run(['rm', '-rf', root + '/D'])
+            r = scen.run_xcp(root, ['-r', '--driver', driver, '--workers', '4', 'S', 'D'], timeout=600, nofile=1024, trace=True)
+            peak = r.final.get('peak_fds', -1)
+            bound = (2 * (CAP + 4 + 1) if driver == 'parblock' else 2 * 4) + CONST
+            ctx.count(f'many_dirs.{driver}.exit.{r.cls}'); ctx.case(('many-dirs', driver), True, sample=dict(directories=700, modes='0750/2775/0700', driver=driver, peak_descriptors=peak, model_bound=bound))
+            peaks[('many-dirs', driver)] = peak
+            ncopied = sum(len(fs) for _, _, fs in os.walk(root + '/D'))
+            if r.cls != '0' or ncopied != 700:
+                ctx.violation(f'many-dirs-{driver}.json', dict(directories=700, driver=driver, exit=r.cls, copied=ncopied, peak=peak, stderr=r.stderr[-300:]),
+                              f'C20: copying 700 directories with non-default modes under RLIMIT_NOFILE=1024 failed or is incomplete ({r.cls}, {ncopied} of 700 files, peak {peak}): {r.stderr.strip()[-100:]}')
+            elif peak > bound:
+                ctx.violation(f'many-dirs-{driver}-peak.json', dict(directories=700, driver=driver, peak=peak, bound=bound, correspondence='descriptor peak vs model bound with many non-default-mode directories'),
+                              f'measured peak {peak} exceeds the model bound {bound} with 700 non-default-mode directories ({driver})', no_input=True)
+        subprocess.run(['rm', '-rf', root + '/S', root + '/D'])
     ctx.cov['peaks'] = {str(k): v for k, v in peaks.items()}
-    ctx.cov['rule'] = 'trees of 400..3000 (thorough: ..20000) small files x driver x workers x {no stall, every copy_file_range stalled}; RLIMIT_NOFILE=1024; a tree 1100 directories deep; 700 (thorough 3000) sparse files with stalled pool threads. distinct = distinct (files, workers, driver, stall)'
+    ctx.cov['rule'] = 'trees of 400..3000 (thorough: ..20000) small files x driver x workers x {no stall, every copy_file_range stalled}; RLIMIT_NOFILE=1024; a tree 1100 directories deep; 700 (thorough 3000) sparse files with stalled pool threads; 1200 files with every fchmod failing; 700 directories with non-default modes. distinct = distinct (files, workers, driver, stall)'
     ctx.assumptions += ['descriptors = 2 per open CopyHandle + a constant (stdio, directory handles); crossbeam/threadpool internals hold no descriptors']
 
 
